@@ -147,3 +147,16 @@ Theorem acc_add_ss_assemblage : acc_spec "add_ss_assemblage" gen_acc
     (T_MOLES, 0%Z, ASub (AVar "cxxSScomp.Get_moles") (AVar "dlocal0")); (T_O, 1%Z, e); (T_TOT, 1%Z, e)]).
 Proof. exact GenProofs.acc_add_ss_assemblage. Qed.
 Print Assumptions acc_add_ss_assemblage.
+
+Theorem acc_add_mix :
+  acc_has "add_mix" gen_acc (T_CALL, 1%Z, AVar "dlocal2") /\
+  acc_count "add_mix" gen_acc T_CALL = 1%nat /\
+  acc_has "add_mix" gen_acc (T_LOCAL, 0%Z, ASub (AVar "dlocal2") (AVar "iter(cxxMix.Get_mixComps).second")).
+Proof. exact GenProofs.acc_add_mix. Qed.
+Print Assumptions acc_add_mix.
+
+Theorem acc_reaction_calc : acc_spec "reaction_calc" gen_acc
+  [(T_ELT, 1%Z, AVar "dlocal0");
+   (T_LOCAL, 0%Z, ASub (AVar "dlocal0") (AVar "iter(cxxReaction.Get_reactantList).second"))].
+Proof. exact GenProofs.acc_reaction_calc. Qed.
+Print Assumptions acc_reaction_calc.
